@@ -117,7 +117,7 @@ def run(ctx):
     rd = fx.body("clap_complete::engine::complete::rsplit_delimiter")
     for c in rd.calls_to(r"^str::split_at$"):
         e = expr(rd, c.args[1])
-        m = re.fullmatch(r"Add\(branch\(rfind\((.*),(.*)\)\)#Continue\.0,len_utf8\((.*)\)\)", e)
+        m = re.fullmatch(r"Add\(branch\(rfind\((.*),(.*)\)\)#Continue\.0,len_utf8\((.*)\)\)", e) or re.fullmatch(r"Add\(rfind\((.*),(.*)\)#Some\.0,len_utf8\((.*)\)\)", e)
         res.check(m is not None and m.group(2) == m.group(3) and expr(rd, c.args[0]) == m.group(1), "R18.2", "lemma|rsplit-index-is-boundary", c.where(), "split_at(rfind(delim) + delim.len_utf8())",
                   "rsplit_delimiter splits at %s: with a multi-byte value delimiter this is not a char boundary and split_at panics" % e[:100])
     # the adapters' `args.len() - 1` is only sound because the internal caller guards non-emptiness
